@@ -460,7 +460,7 @@ class GeneratePafs(Contract):
     """Property-level contract for C05."""
 
     target = "sleap_nn.data.edge_maps.generate_pafs"
-    props = ("C05", "C11")
+    props = ("C05", "C11", "C18")
     level = "property"
     functional = False
     cases = ("nested", "flat")
